@@ -59,6 +59,19 @@ func init() {
 		Models:      []string{"M-json", "M-reflect (TypeOf/ValueOf/Indirect/Kind/FieldByName/MapIndex/Index/Interface/NumField/Field/Tag)", "swag name provider executed from SSA"},
 	})
 	reg(&PropSpec{
+		ID: "C14", Prefix: "vh_C14_",
+		Quick:    Tier{Params: map[string]int{"exts": 1, "extras": 1, "name_len": 1, "sizes": 1, "any_shapes": 1, "ref_primary": 1, "sec_reqs": 2, "vary": 0}},
+		Thorough: Tier{Params: map[string]int{"exts": 2, "extras": 1, "name_len": 1, "sizes": 2, "any_shapes": 1, "ref_primary": 1, "sec_reqs": 2, "vary": 1, "vary_points": 60, "vary_alts": 4}},
+		Bounds: []string{
+			"per type (Schema, Parameter, Items, Header, Response, Operation, Swagger): the symbolic normal-form document of C01 (every keyword's presence symbolic, numeric validations unconstrained 64-bit values incl. zero) is decoded, sent through gob.Encoder/Decoder, and the JSON encodings before and after are compared member by member",
+			"free-form payloads (default, example, enum, extensions, unknown keywords, examples) are one rich value: string, number, booleans, nulls, empty objects, nesting, zero, and (under a symbolic bit, no fork) empty arrays",
+			"security: two requirements, the second with an optional scheme with an empty scope list; $ref in {#/definitions/Pet, other.json#/definitions/Pet, http://h.example/s.json, #, \"\"}",
+		},
+		Outside:     []string{"decoding into a non-zero target value", "payload nesting deeper than 3, longer lists"},
+		Assumptions: []string{"as C01 normal form, plus structurally symbolic payloads"},
+		Models:      []string{"M-gob: transmit function (exported fields; zero scalars and pointers to zero scalars not sent; empty slices not sent; empty maps kept; registered interface types; GobEncoder/GobDecoder methods executed from SSA). The rules are those probed against encoding/gob in go1.23; every witness is replayed through the real gob", "M-json"},
+	})
+	reg(&PropSpec{
 		ID: "C11", Prefix: "vh_C11_",
 		Quick:    Tier{Params: map[string]int{"segs": 2, "seg_len": 2}},
 		Thorough: Tier{Params: map[string]int{"segs": 3, "seg_len": 2}},
